@@ -476,6 +476,11 @@ class BaseParser:
             name = field.attname if as_attname else field.name
 
             if excluded_keys and name in excluded_keys:
+                # the field is already bound (a function parameter given by position, a positional-only name):
+                # the key is not its input, it is left to the addition (**kwargs) as in field_first_parse
+                add_value = self.parse_addition(key, value, context=context)
+                if not unprovided(add_value):
+                    addition[key] = add_value
                 continue
 
             rank = self._alias_rank(field, key)
